@@ -167,6 +167,10 @@ def gen_case(rng, seeds):
         else:
             c["files"]["db_mut.dat"] = t
             c["ops"] = [("loaddb", b"db_mut.dat")]
+    elif r < 0.865:
+        t, db, kind = F.isotope_input(rng)
+        c.update(family="references", tag=kind, db=db)
+        c["ops"] = entry_variant(rng, t, c)
     elif r < 0.885:
         t, kind = F.midrecord_input(rng)
         c.update(family="midrecord", tag=kind)
@@ -344,6 +348,29 @@ def corpus_cases():
     for tag, text in twins.items():
         C.append(mk_case("corpus", tag + "-files-on", [("run", text.encode())], sw=filesw))
         C.append(mk_case("corpus", tag + "-strings", [("run", text.encode())], sw=[("errstr", 1), ("outstr", 1), ("selstr", 1)]))
+    sol1 = "SOLUTION 1\n Na 1\n Cl 1\nEND\n"
+    cv1 = "CALCULATE_VALUES\n Alpha_one\n -start\n 10 SAVE 1.001\n -end\n"
+    refs = {
+        "alpha-without-calculate-value": "ISOTOPE_ALPHAS\n Alpha_undefined\n" + sol1,                                   # seeded/C08e
+        "alpha-alone-then-solution": "ISOTOPE_ALPHAS\n Alpha_undefined\nEND\n" + sol1,
+        "alpha-late": sol1 + "ISOTOPE_ALPHAS\n Alpha_late\nUSE solution 1\nREACTION_TEMPERATURE 1\n 30\nEND\n",
+        "alpha-misspelt-in-second-simulation": cv1 + "ISOTOPE_ALPHAS\n Alpha_one\n" + sol1 + "ISOTOPE_ALPHAS\n Alpha_onee\nSOLUTION 2\n K 1\n Cl 1\nEND\n",
+        "alpha-missing-named-expression": cv1 + "ISOTOPE_ALPHAS\n Alpha_one Log_alpha_missing\n" + sol1,
+        "alpha-print-off": "PRINT\n -isotope_alphas false\nISOTOPE_ALPHAS\n Alpha_undefined\n" + sol1,
+        "ratio-without-isotope": "ISOTOPE_RATIOS\n R(13C)_test 13C\n" + sol1,
+        "selected-output-undefined-calculate-value": "SOLUTION 1\n Na 1\n Cl 1\nSELECTED_OUTPUT 1\n -calculate_values no_such_value\nEND\n",
+        "alpha-control-defined": cv1 + "ISOTOPE_ALPHAS\n Alpha_one\n" + sol1,
+    }
+    for tag, text in refs.items():
+        C.append(mk_case("corpus", "ref-" + tag, [("run", text.encode())], sw=[("errstr", 1), ("outstr", 1)]))
+        if tag.startswith("alpha-without") or tag.startswith("alpha-misspelt"):
+            C.append(mk_case("corpus", "ref-" + tag + "-iso.dat", [("run", text.encode())], sw=[("errstr", 1)], db=str(F.DBDIR / "iso.dat"), probe=GENERIC_PROBE))
+    xb = "SOLUTION 1\n pH 7\n Ca 1\n C 2\nEQUILIBRIUM_PHASES 1\n Calcite 0 1\n"
+    xk = "RATES\nCalcite\n-start\n10 SAVE 1e-6*TIME\n-end\nKINETICS 1\n Calcite\n -m0 1\n -steps 10\n"
+    add("exchange-unknown-element-related-phase", xb + "EXCHANGE 1\n XZz Calcite equilibrium_phase 0.1\nEND\n")
+    add("exchange-unknown-element-related-kinetics", xb + xk + "EXCHANGE 1\n XZz Calcite kinetic_reactant 0.1\nEND\n")
+    add("surface-unknown-element-related-phase", xb + "SURFACE 1\n Hfo_wZz Calcite equilibrium_phase 0.1 1e5\nEND\n")
+    add("surface-unknown-element-related-kinetics", xb + xk + "SURFACE 1\n Hfo_wZz Calcite kinetic_reactant 0.1 1e5\nEND\n")
     C.extend(basic_editor_cases())
     C.append(mk_case("corpus", "kinetics-constant-rate", [("run", HANG_INPUT)], sw=[("errstr", 1)], timeout=5))
     C.append(mk_case("corpus", "load-missing-after-warning", [("loaddb", b"/nonexistent_dir_c08/x.dat")], sw=[("errstr", 1)], pre=[("run", WARN_PRE)]))
